@@ -23,12 +23,16 @@ from mc import env  # noqa: E402
 def _run_shard(args):
     modname, shard, tier, seed = args
     env.worker_init()
+    from mc import linecov
+    linecov.start(env.REPO)
     mod = importlib.import_module(modname)
     # numba threads: 1 unless the property is about thread counts (must be set before numba is imported,
     # which happens lazily when the shard first imports tangermeme)
     os.environ["NUMBA_NUM_THREADS"] = str(shard.get("numba_threads", getattr(mod, "NUMBA_THREADS", 1)))
     try:
-        return mod.run_shard(shard, tier, seed)
+        r = mod.run_shard(shard, tier, seed)
+        r["lines"] = linecov.collect()
+        return r
     except Exception:
         # a crash of the harness itself is reported as such (never as silence)
         return dict(shard=str(shard.get("name")), evaluations=0, nontrivial=0, samples=[],
@@ -175,6 +179,22 @@ def main():
             pid, path, r["shard"], r["crash"].strip().splitlines()[-1][:200]))
         rc = 1
 
+    # lines of the anchored functions executed by this run (non-vacuity signal; compiled numba kernels are not visible)
+    merged_lines = {}
+    for r in results:
+        for f, ls in (r.get("lines") or {}).items():
+            merged_lines.setdefault(f, set()).update(ls)
+    try:
+        from mc import linecov
+        anchors = []
+        with open(os.path.join(HERE, "properties.jsonl")) as fh:
+            for ln in fh:
+                pj = json.loads(ln)
+                if pj["id"] == pid:
+                    anchors = pj["anchors"]["files"]
+        line_cov = linecov.summarise({f: sorted(v) for f, v in merged_lines.items()}, env.REPO, anchors)
+    except Exception as e:  # noqa: BLE001
+        line_cov = {"error": str(e)}
     level = getattr(mod, "LEVEL", "exploration")
     cov = dict(evaluations=m["evaluations"], distinct_nontrivial=m["nontrivial"],
                rule=getattr(mod, "RULE", ""), samples=m["samples"][:6],
@@ -183,7 +203,8 @@ def main():
                distinct_outcomes=len(m["outcomes"]), counters=m["counters"],
                bound=mod.bound(tier) if hasattr(mod, "bound") else "",
                determinism_replay_identical=det, environment=envinfo,
-               known_findings_hit=sorted(known_hit), violation_signatures=unknown_sigs)
+               known_findings_hit=sorted(known_hit), violation_signatures=unknown_sigs,
+               anchored_lines_executed=line_cov)
     if level == "model_checking":
         cov["states"] = m["counters"].get("states", 0)
         cov["transitions"] = m["counters"].get("transitions", 0)
